@@ -148,6 +148,15 @@ pub fn scenario(seed: u64, kind: Kind, volume: u64, quiesce: bool) -> Made {
         let ttl = if rng.chance(1, 3) { max_ttl } else { 1 + rng.below(max_ttl as u64) as u32 };
         let m = foreign_packet(&mut rng, kind, n, ttl);
         w.inject_msg(h, 2, scen::peer4(70), &m);
+        // now and then the application asks for an instance it has seen to be verified (a request with a timeout,
+        // short or very long, that nobody answers): it may bring the end of the records forward, never push it back
+        if quiesce && with_browse && rng.chance(1, 12) {
+            let name = match kind {
+                Kind::Reannounce => "steady".to_string(),
+                _ => format!("c{}", n.saturating_sub(rng.below(3))),
+            };
+            w.verify(h, &format!("{name}.{BROWSED}"), *rng.pick(&[500u64, 10_000, 3_600_000]));
+        }
         w.run_for(gap);
         if n % 25 == 24 {
             if let Some(s) = w.hosts[h].last_snapshot.clone() {
